@@ -62,19 +62,41 @@ static std::string show_ctx(const trace_api::SpanContext &sc)
 }
 
 // Extract into a caller context that carries a marker binding; "none" = the caller's context came back unchanged
-static std::string do_extract(context::propagation::TextMapPropagator &p, ExactCarrier &c)
+static const uint8_t kCallerTid[16] = {0x50, 1, 2, 3, 4, 5, 6, 7, 8, 9, 10, 11, 12, 13, 14, 15};
+static const uint8_t kCallerSid[8]  = {0x51, 1, 2, 3, 4, 5, 6, 7};
+
+// `over`: the caller's context already holds a (local) span; when nothing valid is extracted it must come back untouched
+static std::string do_extract(context::propagation::TextMapPropagator &p, ExactCarrier &c, bool over = false,
+                              trace_api::SpanContext *got = nullptr)
 {
   context::Context ctx;
-  ctx          = ctx.SetValue("marker", static_cast<int64_t>(77));
+  ctx = ctx.SetValue("marker", static_cast<int64_t>(77));
+  if (over)
+  {
+    trace_api::SpanContext caller(trace_api::TraceId(nostd::span<const uint8_t, 16>(kCallerTid, 16)),
+                                  trace_api::SpanId(nostd::span<const uint8_t, 8>(kCallerSid, 8)), trace_api::TraceFlags(0),
+                                  false);
+    nostd::shared_ptr<trace_api::Span> sp{new trace_api::DefaultSpan(caller)};
+    ctx = trace_api::SetSpan(ctx, sp);
+  }
   auto out     = p.Extract(c, ctx);
   bool same    = (out == ctx);
   bool has_key = out.HasKey(trace_api::kSpanKey);
   if (same)
   {
+    if (over)
+    {
+      auto cs = trace_api::GetSpan(out)->GetContext();
+      if (!has_key || cs.IsRemote() || !(cs.trace_id() == trace_api::TraceId(nostd::span<const uint8_t, 16>(kCallerTid, 16))) ||
+          cs.span_id() != trace_api::SpanId(nostd::span<const uint8_t, 8>(kCallerSid, 8)))
+        return "ERR caller-span-replaced";
+      return "none";
+    }
     if (has_key) return "ERR caller-context-has-span";
     return "none";
   }
   auto sc = trace_api::GetSpan(out)->GetContext();
+  if (got) *got = sc;
   if (!sc.IsValid()) return "installed-invalid " + show_ctx(sc);
   auto mk = out.GetValue("marker");
   if (!nostd::holds_alternative<int64_t>(mk) || nostd::get<int64_t>(mk) != 77) return "ERR marker-lost";
@@ -84,6 +106,12 @@ static std::string do_extract(context::propagation::TextMapPropagator &p, ExactC
 static bool make_ctx(const std::vector<std::string> &t, context::Context &ctx)
 {
   std::string tid, sid, fl;
+  if (t[3] == "-" && t[4] == "-" && (t[2] == "-" || t[2] == "x"))
+  {
+    // "-": no span in the context at all; "x": the span key holds a value of another type
+    if (t[2] == "x") ctx = ctx.SetValue(trace_api::kSpanKey, static_cast<int64_t>(5));
+    return true;
+  }
   if (!vh::from_hex(t[2], tid) || !vh::from_hex(t[3], sid) || !vh::from_hex(t[4], fl) || tid.size() != 16 ||
       sid.size() != 8 || fl.size() != 1)
     return false;
@@ -114,12 +142,58 @@ static std::string extras(const std::map<std::string, std::string> &m, std::init
   return r;
 }
 
-static std::string roundtrip(context::propagation::TextMapPropagator &p, ExactCarrier &c)
+static std::string roundtrip(context::propagation::TextMapPropagator &p, ExactCarrier &c, const context::Context &ctx)
 {
   // feed exactly what was injected into a fresh carrier (exact-size blocks) and extract
   ExactCarrier c2;
   for (auto &kv : c.out_) c2.Put(kv.first, kv.second);
-  return do_extract(p, c2);
+  trace_api::SpanContext got = trace_api::SpanContext::GetInvalid();
+  std::string r              = do_extract(p, c2, false, &got);
+  // "the same trace id and span id and the same sampled decision", said through the API's own comparison operators:
+  // they must agree with the byte-wise comparison of what is printed
+  auto orig = trace_api::GetSpan(ctx)->GetContext();
+  trace_api::SpanContext want(orig.trace_id(), orig.span_id(),
+                              trace_api::TraceFlags(orig.IsSampled() ? trace_api::TraceFlags::kIsSampled : 0), true);
+  uint8_t a[16], b[16], x[8], y[8];
+  want.trace_id().CopyBytesTo(a);
+  got.trace_id().CopyBytesTo(b);
+  want.span_id().CopyBytesTo(x);
+  got.span_id().CopyBytesTo(y);
+  bool tid_eq = memcmp(a, b, 16) == 0, sid_eq = memcmp(x, y, 8) == 0;
+  bool fl_eq  = want.trace_flags().flags() == got.trace_flags().flags();
+  if ((want == got) != (tid_eq && sid_eq && fl_eq) || (want.trace_id() == got.trace_id()) != tid_eq ||
+      (want.trace_id() != got.trace_id()) == tid_eq || (want.span_id() == got.span_id()) != sid_eq ||
+      (want.span_id() != got.span_id()) == sid_eq || (want.trace_flags() == got.trace_flags()) != fl_eq ||
+      (want.trace_flags() != got.trace_flags()) == fl_eq)
+    return "ERR span-context-equality-disagrees-with-bytes " + r;
+  // ... and a context that differs in one bit of the trace id, of the span id or in the sampled bit is not equal
+  uint8_t a2[16], x2[8], f1[1];
+  memcpy(a2, a, 16);
+  memcpy(x2, x, 8);
+  a2[15] ^= 1;
+  x2[0] ^= 0x80;
+  want.trace_flags().CopyBytesTo(f1);
+  trace_api::SpanContext w1(trace_api::TraceId(a2), want.span_id(), want.trace_flags(), true);
+  trace_api::SpanContext w2(want.trace_id(), trace_api::SpanId(x2), want.trace_flags(), true);
+  trace_api::SpanContext w3(want.trace_id(), want.span_id(), trace_api::TraceFlags(static_cast<uint8_t>(f1[0] ^ 1)), true);
+  if (w1 == want || w2 == want || w3 == want || f1[0] != want.trace_flags().flags())
+    return "ERR span-context-equality-ignores-a-difference " + r;
+  return r;
+}
+
+// Fields with a callback that returns false at its n-th call (0 = never)
+static std::string do_fields(const context::propagation::TextMapPropagator &p, const std::string &n)
+{
+  if (n.empty() || n.size() > 2 || n.find_first_not_of("0123456789") != std::string::npos) return "bad-op";
+  size_t stop = std::stoul(n), calls = 0;
+  std::string s = "[";
+  bool ret      = p.Fields([&](nostd::string_view f) {
+    if (calls) s += ",";
+    calls++;
+    s += vh::to_hex(f.data(), f.size());
+    return calls != stop;
+  });
+  return "f=" + s + "] ret=" + (ret ? "1" : "0");
 }
 
 static std::string handle_b3(const std::vector<std::string> &t)
@@ -136,13 +210,41 @@ static std::string handle_b3(const std::vector<std::string> &t)
     ExactCarrier c;
     p.Inject(c, ctx);
     if (c.out_.empty()) return "none";
-    if (t[1] == "rt-single" || t[1] == "rt-multi") return roundtrip(p, c);
+    if (t[1] == "rt-single" || t[1] == "rt-multi") return roundtrip(p, c, ctx);
     if (is_single) return "b3=" + get_or(c.out_, "b3") + extras(c.out_, {"b3"});
     return "tid=" + get_or(c.out_, "X-B3-TraceId") + " sid=" + get_or(c.out_, "X-B3-SpanId") +
            " smp=" + get_or(c.out_, "X-B3-Sampled") + extras(c.out_, {"X-B3-TraceId", "X-B3-SpanId", "X-B3-Sampled"});
   }
-  if (t.size() == 6 && t[1] == "extract")
+  if (t.size() == 3 && t[1] == "fields-single") return do_fields(single, t[2]);
+  if (t.size() == 3 && t[1] == "fields-multi") return do_fields(multi, t[2]);
+  if (t.size() == 3 && (t[1] == "flags" || t[1] == "tidhex" || t[1] == "sidhex"))
   {
+    // the public static helpers of B3PropagatorExtractor called directly (exact-size buffer).  TraceIdFromHex /
+    // SpanIdFromHex require hex digits (HexToInt gives -1 otherwise, which is then shifted): other text is not a case
+    std::string h;
+    if (!vh::from_hex(t[2], h)) return "bad-op";
+    vh::Exact x(h);
+    nostd::string_view sv(x.data(), x.size());
+    if (t[1] == "flags")
+    {
+      char f = static_cast<char>(prop::B3PropagatorExtractor::TraceFlagsFromHex(sv).flags());
+      return "fl=" + vh::to_hex(&f, 1);
+    }
+    if (!prop::detail::IsValidHex(sv)) return "bad-op";
+    if (t[1] == "tidhex")
+    {
+      char b[16];
+      prop::B3PropagatorExtractor::TraceIdFromHex(sv).CopyBytesTo(
+          nostd::span<uint8_t, 16>(reinterpret_cast<uint8_t *>(b), 16));
+      return "id=" + vh::to_hex(b, 16);
+    }
+    char b[8];
+    prop::B3PropagatorExtractor::SpanIdFromHex(sv).CopyBytesTo(nostd::span<uint8_t, 8>(reinterpret_cast<uint8_t *>(b), 8));
+    return "id=" + vh::to_hex(b, 8);
+  }
+  if (t.size() == 6 && (t[1] == "extract" || t[1] == "extract-over"))
+  {
+    bool over = t[1] == "extract-over";
     std::string v[4];
     static const char *names[4] = {"b3", "X-B3-TraceId", "X-B3-SpanId", "X-B3-Sampled"};
     ExactCarrier c;
@@ -153,8 +255,8 @@ static std::string handle_b3(const std::vector<std::string> &t)
       if (t[2 + i] != "-") c.Put(names[i], v[i]);
     }
     // the extractor is shared by both classes; alternate so both vtables are exercised
-    std::string a = do_extract(single, c);
-    std::string b = do_extract(multi, c);
+    std::string a = do_extract(single, c, over);
+    std::string b = do_extract(multi, c, over);
     if (a != b) return "ERR single-and-multi-extractors-differ " + a + " / " + b;
     return a;
   }
@@ -171,16 +273,17 @@ static std::string handle_jg(const std::vector<std::string> &t)
     ExactCarrier c;
     p.Inject(c, ctx);
     if (c.out_.empty()) return "none";
-    if (t[1] == "rt") return roundtrip(p, c);
+    if (t[1] == "rt") return roundtrip(p, c, ctx);
     return "h=" + get_or(c.out_, "uber-trace-id") + extras(c.out_, {"uber-trace-id"});
   }
-  if (t.size() == 3 && t[1] == "extract")
+  if (t.size() == 3 && t[1] == "fields") return do_fields(p, t[2]);
+  if (t.size() == 3 && (t[1] == "extract" || t[1] == "extract-over"))
   {
     std::string h;
     if (!vh::from_hex(t[2], h)) return "bad-op";
     ExactCarrier c;
     if (t[2] != "-") c.Put("uber-trace-id", h);
-    return do_extract(p, c);
+    return do_extract(p, c, t[1] == "extract-over");
   }
   return "bad-op";
 }
